@@ -474,6 +474,236 @@ namespace
         return nullptr;
     }
 
+    // integer value of a constant expression (literals, character literals, constexpr names, arithmetic on them)
+    bool ivalOf(const Expr* E, int64_t& out)
+    {
+        if (!E || !G.AC || E->isValueDependent() || E->isTypeDependent())
+            return false;
+        if (!E->getType()->isIntegralOrEnumerationType())
+            return false;
+        Expr::EvalResult R;
+        if (E->EvaluateAsInt(R, *G.AC))
+        {
+            out = R.Val.getInt().getExtValue();
+            return true;
+        }
+        return false;
+    }
+
+    const Expr* stripCasts(const Expr* E)
+    {
+        for (;;)
+        {
+            const Expr* N = strip(E);
+            if (auto* X = dyn_cast_or_null<ExplicitCastExpr>(N))
+                N = X->getSubExpr();
+            if (N == E || !N)
+                return E;
+            E = N;
+        }
+    }
+
+    // `v`, `v + C`, `v - C`, `C + v` or a constant, looked at through casts and parentheses: {"v","vd","k"} / {"k"}
+    json::Value affineOf(const Expr* E)
+    {
+        if (!E)
+            return nullptr;
+        E = stripCasts(E);
+        int64_t c = 0;
+        if (ivalOf(E, c))
+        {
+            json::Object O;
+            O["k"] = c;
+            return O;
+        }
+        auto var = [&](const Expr* X, json::Object& O) -> bool {
+            X = stripCasts(X);
+            if (auto* D = dyn_cast_or_null<DeclRefExpr>(X))
+                if (auto* VD = dyn_cast<VarDecl>(D->getDecl()))
+                {
+                    O["v"] = VD->getNameAsString();
+                    O["vd"] = std::to_string(lineOf(VD->getLocation())) + ":" + std::to_string(colOf(VD->getLocation()));
+                    return true;
+                }
+            return false;
+        };
+        json::Object O;
+        if (var(E, O))
+        {
+            O["k"] = (int64_t)0;
+            return O;
+        }
+        if (auto* B = dyn_cast<BinaryOperator>(E))
+        {
+            if (B->getOpcode() == BO_Add || B->getOpcode() == BO_Sub)
+            {
+                if (ivalOf(stripCasts(B->getRHS()), c) && var(B->getLHS(), O))
+                {
+                    O["k"] = B->getOpcode() == BO_Add ? c : -c;
+                    return O;
+                }
+                if (B->getOpcode() == BO_Add && ivalOf(stripCasts(B->getLHS()), c) && var(B->getRHS(), O))
+                {
+                    O["k"] = c;
+                    return O;
+                }
+            }
+        }
+        return nullptr;
+    }
+
+    // Integer expression tree (for bit-level dataflow rules): constants, variables, the operators + - & | ^ << >> ~, width-changing
+    // casts, element reads `field.at(i)` / `field[i]`, calls with their arguments.  Anything else is an opaque leaf {"op":"?"}.
+    json::Value exprTree(const Expr* E, int& budget)
+    {
+        json::Object O;
+        if (!E || --budget < 0)
+        {
+            O["op"] = "?";
+            return O;
+        }
+        // constants first (folds `97 - 26`, character literals, constexpr names)
+        {
+            const Expr* P = E->IgnoreParens();
+            int64_t c = 0;
+            if (!isa<CastExpr>(P) || true)
+                if (ivalOf(P, c))
+                {
+                    O["c"] = c;
+                    return O;
+                }
+        }
+        const Expr* P = E->IgnoreParens();
+        if (auto* M = dyn_cast<MaterializeTemporaryExpr>(P))
+            return exprTree(M->getSubExpr(), budget);
+        if (auto* B = dyn_cast<CXXBindTemporaryExpr>(P))
+            return exprTree(B->getSubExpr(), budget);
+        if (auto* C = dyn_cast<ExprWithCleanups>(P))
+            return exprTree(C->getSubExpr(), budget);
+        if (auto* C = dyn_cast<CastExpr>(P))
+        {
+            QualType T = C->getType();
+            if (T->isIntegralOrEnumerationType() && C->getSubExpr()->getType()->isIntegralOrEnumerationType() && G.AC)
+            {
+                uint64_t wt = G.AC->getTypeSize(T), wf = G.AC->getTypeSize(C->getSubExpr()->getType());
+                if (wt != wf || isa<ExplicitCastExpr>(C))
+                {
+                    O["op"] = "cast";
+                    O["w"] = (int64_t)wt;
+                    O["sgn"] = T->isSignedIntegerOrEnumerationType();
+                    json::Array A;
+                    A.push_back(exprTree(C->getSubExpr(), budget));
+                    O["a"] = std::move(A);
+                    return O;
+                }
+            }
+            return exprTree(C->getSubExpr(), budget);
+        }
+        if (auto* D = dyn_cast<DeclRefExpr>(P))
+        {
+            if (auto* VD = dyn_cast<VarDecl>(D->getDecl()))
+            {
+                O["v"] = VD->getNameAsString();
+                O["vd"] = std::to_string(lineOf(VD->getLocation())) + ":" + std::to_string(colOf(VD->getLocation()));
+                return O;
+            }
+        }
+        if (auto* M = dyn_cast<MemberExpr>(P))
+        {
+            if (auto* FD = dyn_cast<FieldDecl>(M->getMemberDecl()))
+            {
+                O["f"] = qname(FD);
+                return O;
+            }
+        }
+        if (auto* U = dyn_cast<UnaryOperator>(P))
+        {
+            if (U->getOpcode() == UO_Not || U->getOpcode() == UO_Minus || U->getOpcode() == UO_Plus)
+            {
+                O["op"] = UnaryOperator::getOpcodeStr(U->getOpcode()).str() + "u";
+                json::Array A;
+                A.push_back(exprTree(U->getSubExpr(), budget));
+                O["a"] = std::move(A);
+                return O;
+            }
+        }
+        if (auto* B = dyn_cast<BinaryOperator>(P))
+        {
+            if (!B->isAssignmentOp() && !B->isComparisonOp() && !B->isLogicalOp() && B->getOpcode() != BO_Comma)
+            {
+                O["op"] = B->getOpcodeStr().str();
+                json::Array A;
+                A.push_back(exprTree(B->getLHS(), budget));
+                A.push_back(exprTree(B->getRHS(), budget));
+                O["a"] = std::move(A);
+                return O;
+            }
+        }
+        if (auto* OC = dyn_cast<CXXOperatorCallExpr>(P))
+        {
+            auto K = OC->getOperator();
+            if (K == OO_Subscript && OC->getNumArgs() == 2)
+            {
+                O["op"] = "elem";
+                O["base"] = exprTree(OC->getArg(0), budget);
+                O["i"] = exprTree(OC->getArg(1), budget);
+                return O;
+            }
+            const char* sp = getOperatorSpelling(K);
+            if (sp && (K == OO_LessLess || K == OO_GreaterGreater || K == OO_Amp || K == OO_Pipe || K == OO_Caret || K == OO_Plus || K == OO_Minus || K == OO_Tilde))
+            {
+                O["op"] = OC->getNumArgs() == 1 ? std::string(sp) + "u" : std::string(sp);
+                json::Array A;
+                for (unsigned i = 0; i < OC->getNumArgs(); ++i)
+                    A.push_back(exprTree(OC->getArg(i), budget));
+                O["a"] = std::move(A);
+                if (G.AC && OC->getType()->isIntegralOrEnumerationType())
+                    O["w"] = (int64_t)G.AC->getTypeSize(OC->getType());
+                return O;
+            }
+        }
+        if (auto* MC = dyn_cast<CXXMemberCallExpr>(P))
+        {
+            if (auto* MD = MC->getMethodDecl())
+            {
+                std::string n = MD->getNameAsString();
+                if ((n == "at" || n == "operator[]") && MC->getNumArgs() == 1)
+                {
+                    O["op"] = "elem";
+                    O["base"] = exprTree(MC->getImplicitObjectArgument(), budget);
+                    O["i"] = exprTree(MC->getArg(0), budget);
+                    O["checked"] = n == "at";
+                    return O;
+                }
+            }
+        }
+        if (auto* CE = dyn_cast<CallExpr>(P))
+        {
+            if (auto* F = CE->getDirectCallee())
+            {
+                O["op"] = "call";
+                O["fn"] = calleeName(F);
+                json::Array A;
+                for (unsigned i = 0; i < CE->getNumArgs(); ++i)
+                    A.push_back(exprTree(CE->getArg(i), budget));
+                O["a"] = std::move(A);
+                if (G.AC && CE->getType()->isIntegralOrEnumerationType())
+                    O["w"] = (int64_t)G.AC->getTypeSize(CE->getType());
+                return O;
+            }
+        }
+        if (auto* AS = dyn_cast<ArraySubscriptExpr>(P))
+        {
+            O["op"] = "elem";
+            O["base"] = exprTree(AS->getBase(), budget);
+            O["i"] = exprTree(AS->getIdx(), budget);
+            return O;
+        }
+        O["op"] = "?";
+        O["t"] = txt(P);
+        return O;
+    }
+
     json::Array argsOf(llvm::ArrayRef<const Expr*> Args)
     {
         json::Array A;
@@ -497,6 +727,12 @@ namespace
             O = refOf(E);
             if (auto* L = asLambda(E))
                 O["lam"] = lambdaId(L);
+            if (E->getType()->isIntegralOrEnumerationType() && !E->getType()->isBooleanType())
+            {
+                auto a = affineOf(E);
+                if (!(a.kind() == json::Value::Null))
+                    O["aff"] = std::move(a);
+            }
             auto c = constOf(E);
             if (!(c.kind() == json::Value::Null))
                 O["const"] = std::move(c);
@@ -715,6 +951,19 @@ namespace
                         if (auto* L = asLambda(I))
                             O["lam"] = lambdaId(L);
                         O["refs"] = refsOf(I);
+                        if (VD->getType()->isIntegralOrEnumerationType() || VD->getType()->isDependentType() == false)
+                        {
+                            auto a = affineOf(I);
+                            if (!(a.kind() == json::Value::Null))
+                                O["aff"] = std::move(a);
+                        }
+                        if ((VD->getType()->isIntegralOrEnumerationType() && !VD->getType()->isBooleanType()) || VD->getType()->isReferenceType())
+                        {
+                            int budget = 64;
+                            auto x = exprTree(I, budget);
+                            if (budget >= 0)
+                                O["xt"] = std::move(x);
+                        }
                     }
                     out.push_back(std::move(O));
                     any = true;
@@ -734,6 +983,17 @@ namespace
                     if (!(c.kind() == json::Value::Null))
                         O["const"] = std::move(c);
                     O["refs"] = refsOf(B->getRHS());
+                    if (B->getLHS()->getType()->isIntegralOrEnumerationType() && !B->getLHS()->getType()->isBooleanType())
+                    {
+                        int budget = 96;
+                        auto r = exprTree(B->getRHS(), budget);
+                        auto l = exprTree(B->getLHS(), budget);
+                        if (budget >= 0)
+                        {
+                            O["xt"] = std::move(r);
+                            O["lxt"] = std::move(l);
+                        }
+                    }
                     out.push_back(std::move(O));
                     return true;
                 }
@@ -750,6 +1010,25 @@ namespace
                     auto c2 = constOf(B->getLHS());
                     if (!(c2.kind() == json::Value::Null))
                         O["lconst"] = std::move(c2);
+                    {
+                        int64_t iv = 0;
+                        if (ivalOf(stripCasts(B->getRHS()), iv))
+                            O["rival"] = iv;
+                        else
+                        {
+                            auto a = affineOf(B->getRHS());
+                            if (!(a.kind() == json::Value::Null))
+                                O["raff"] = std::move(a);
+                        }
+                        if (ivalOf(stripCasts(B->getLHS()), iv))
+                            O["lival"] = iv;
+                        else
+                        {
+                            auto a = affineOf(B->getLHS());
+                            if (!(a.kind() == json::Value::Null))
+                                O["laff"] = std::move(a);
+                        }
+                    }
                     out.push_back(std::move(O));
                     return true;
                 }
@@ -819,6 +1098,18 @@ namespace
                         O["const"] = std::move(c);
                     O["val"] = refOf(R->getRetValue());
                     O["refs"] = refsOf(R->getRetValue());
+                    {
+                        auto a = affineOf(R->getRetValue());
+                        if (!(a.kind() == json::Value::Null))
+                            O["aff"] = std::move(a);
+                        if (R->getRetValue()->getType()->isIntegralOrEnumerationType() && !R->getRetValue()->getType()->isBooleanType())
+                        {
+                            int budget = 64;
+                            auto x = exprTree(R->getRetValue(), budget);
+                            if (budget >= 0)
+                                O["xt"] = std::move(x);
+                        }
+                    }
                     // `return c ? A : B;` with constant arms: the constants, in the order (c true, c false)
                     if (auto* CO = dyn_cast<ConditionalOperator>(strip(R->getRetValue())))
                     {
